@@ -1109,6 +1109,11 @@ func (s *vSim) randomRun(o simOpts) {
 		nInit = 3
 		voters = []uint64{1, 2, 3}
 	}
+	if o.scenarios && s.tid%32 == 15 {
+		scen = 9
+		nInit = 3
+		voters = []uint64{1, 2, 3}
+	}
 	if o.scenarios && s.tid%32 == 7 {
 		scen = 7
 		nInit = 3
@@ -1611,7 +1616,67 @@ func (s *vSim) scenario8() {
 	s.settle(2*int(s.et), nil, nil, nil, nil)
 }
 
+// scenario9 (three voters): a read A on the leader, whose confirmation round is answered but the
+// answer is delayed; the leader is cut off and replaced, the others commit a write; a second read
+// B arrives on the old leader (its commit index has not moved, so B records the same index as A);
+// then the delayed answer for A arrives. It confirms A - and nothing that was queued after A.
+func (s *vSim) scenario9() {
+	s.settle(40, nil, nil, nil, func() bool { return s.leaderNode() != nil && s.leaderNode().applied >= 4 })
+	l := s.leaderNode()
+	if l == nil {
+		return
+	}
+	var b *vNode
+	for _, n := range s.upNodes() {
+		if n.id != l.id {
+			b = n
+			break
+		}
+	}
+	only := func(ids ...uint64) map[uint64]bool {
+		m := map[uint64]bool{}
+		for _, n := range s.upNodes() {
+			m[n.id] = true
+		}
+		for _, id := range ids {
+			delete(m, id)
+		}
+		return m
+	}
+	s.hold = func(m pb.Message) bool { return m.Type == pb.HeartbeatResp && m.To == l.id && m.Hint != 0 }
+	s.nextCtx++
+	s.readIndex(l, s.nextCtx)
+	s.settle(1, nil, nil, only(), nil) // the heartbeats with the hint are answered, the answers wait
+	// l is cut off (it does not tick: it keeps believing it leads), b is elected and commits
+	cutl := func(m pb.Message) bool { return m.From == l.id || m.To == l.id }
+	s.settle(40, cutl, nil, only(b.id), func() bool { return b.peer.raft.state == leader })
+	if b.peer.raft.state != leader {
+		s.hold = nil
+		return
+	}
+	s.nextVal++
+	s.propose(b, s.nextVal)
+	s.settle(4, cutl, nil, only(b.id), nil)
+	// the second read on the old leader
+	if l.peer.raft.state == leader {
+		s.nextCtx++
+		s.readIndex(l, s.nextCtx)
+		s.settle(1, cutl, nil, only(), nil)
+	}
+	// the delayed answers arrive (nothing else reaches l yet)
+	s.hold = nil
+	notResp := func(m pb.Message) bool {
+		return (m.From == l.id || m.To == l.id) && !(m.Type == pb.HeartbeatResp && m.To == l.id)
+	}
+	s.settle(2, notResp, nil, only(), nil)
+	s.settle(2*int(s.et), nil, nil, nil, nil)
+}
+
 func (s *vSim) scenario(k int, nextID uint64) uint64 {
+	if k == 9 {
+		s.scenario9()
+		return nextID
+	}
 	if k == 8 {
 		s.scenario8()
 		return nextID
